@@ -1,7 +1,31 @@
 package main
 
-import "verifharness/internal/vh"
+import (
+	"fmt"
+	"os"
+	"sort"
+	"strconv"
+
+	"github.com/youchainhq/go-youchain/params"
+
+	"verifharness/internal/vh"
+)
 
 func main() {
+	if len(os.Args) == 3 && os.Args[1] == "dumpparams" {
+		id, _ := strconv.ParseUint(os.Args[2], 10, 64)
+		params.InitNetworkId(id)
+		var ks []int
+		for k := range params.Versions {
+			ks = append(ks, int(k))
+		}
+		sort.Ints(ks)
+		for _, k := range ks {
+			v := params.Versions[params.YouVersion(k)]
+			fmt.Printf("  (%d, { approvedUpgradeVersion := %d, upgradeWaitRounds := %d, upgradeVoteRounds := %d, upgradeThreshold := %d, minUpgradeWaitRounds := %d, maxUpgradeWaitRounds := %d }),\n",
+				k, v.ApprovedUpgradeVersion, v.UpgradeWaitRounds, v.UpgradeVoteRounds, v.UpgradeThreshold, v.MinUpgradeWaitRounds, v.MaxUpgradeWaitRounds)
+		}
+		return
+	}
 	vh.Main(vh.Harness{Property: "C12", Run: run, Replay: replay, Gen: genC12})
 }
